@@ -100,6 +100,94 @@ pub trait Value: Clone + Debug + Eq + PartialEq {
             self.vbits() == other.vbits() && self.vbits() % 8 == 0 ==> or_bytes_ok(self.le_bytes(), other.le_bytes(), r.unwrap().le_bytes());
 }
 
+// ---- what evaluating the expression each operator builds yields, read byte-wise --------------------------
+// One lemma per operator, with explicit arguments: the function bodies below only state the lemma for
+// every shift-amount constant / result (a quantified fact whose trigger is the evaluation of exactly the
+// expression the operator is supposed to build), so that their own contexts hold no arithmetic.
+
+pub open spec fn amount_of(c: il::Constant, bits: usize, sc: il::Constant) -> bool {
+    sc.wf() && sc.bits == c.bits && sc.value@ == (bits as u64 as nat) % pow2(c.bits as nat)
+}
+
+pub proof fn lemma_value_shl(c: il::Constant, bits: usize, sc: il::Constant, r: Result<il::Constant, Error>)
+    requires
+        c.wf(), amount_of(c, bits, sc),
+        eval_agrees(r, eval_spec(il::Expression::Shl(Box::new(il::Expression::Constant(c)), Box::new(il::Expression::Constant(sc))), empty_env())),
+    ensures
+        r matches Ok(v) && v.wf() && v.bits == c.bits,
+        c.bits % 8 == 0 && bits % 8 == 0 && bits < c.bits ==> r.unwrap().le_bytes() == shl_bytes(c.le_bytes(), bits as nat / 8),
+{
+    reveal_with_fuel(eval_spec, 3);
+    let w = c.bits as nat;
+    lemma_lt_pow2_(w);
+    if w % 8 == 0 && bits % 8 == 0 && (bits as nat) < w {
+        lemma_small_mod(bits as nat, pow2(w));
+        lemma_bytes_shl(w, c.value@, bits as nat);
+    }
+}
+
+pub proof fn lemma_value_shr(c: il::Constant, bits: usize, sc: il::Constant, r: Result<il::Constant, Error>)
+    requires
+        c.wf(), amount_of(c, bits, sc),
+        eval_agrees(r, eval_spec(il::Expression::Shr(Box::new(il::Expression::Constant(c)), Box::new(il::Expression::Constant(sc))), empty_env())),
+    ensures
+        r matches Ok(v) && v.wf() && v.bits == c.bits,
+        c.bits % 8 == 0 && bits % 8 == 0 && bits < c.bits ==> r.unwrap().le_bytes() == shr_bytes(c.le_bytes(), bits as nat / 8),
+{
+    reveal_with_fuel(eval_spec, 3);
+    let w = c.bits as nat;
+    lemma_lt_pow2_(w);
+    if w % 8 == 0 && bits % 8 == 0 && (bits as nat) < w {
+        lemma_small_mod(bits as nat, pow2(w));
+        lemma_bytes_shr(w, c.value@, bits as nat);
+    }
+}
+
+pub proof fn lemma_value_trun(c: il::Constant, bits: usize, r: Result<il::Constant, Error>)
+    requires
+        c.wf(), 1 <= bits < c.bits,
+        eval_agrees(r, eval_spec(il::Expression::Trun(bits, Box::new(il::Expression::Constant(c))), empty_env())),
+    ensures
+        r matches Ok(v) && v.wf() && v.bits == bits,
+        c.bits % 8 == 0 && bits % 8 == 0 ==> r.unwrap().le_bytes() == c.le_bytes().take(bits as int / 8),
+{
+    reveal_with_fuel(eval_spec, 3);
+    let w = c.bits as nat;
+    if w % 8 == 0 && bits % 8 == 0 {
+        lemma_bytes_trun(w, c.value@, bits as nat);
+    }
+}
+
+pub proof fn lemma_value_zext(c: il::Constant, bits: usize, r: Result<il::Constant, Error>)
+    requires
+        c.wf(), c.bits < bits, bits as nat <= MAX_BITS(),
+        eval_agrees(r, eval_spec(il::Expression::Zext(bits, Box::new(il::Expression::Constant(c))), empty_env())),
+    ensures
+        r matches Ok(v) && v.wf() && v.bits == bits,
+        c.bits % 8 == 0 && bits % 8 == 0 ==> r.unwrap().le_bytes() == zext_bytes(c.le_bytes(), bits as nat / 8),
+{
+    reveal_with_fuel(eval_spec, 3);
+    let w = c.bits as nat;
+    if w % 8 == 0 && bits % 8 == 0 {
+        lemma_bytes_zext(w, c.value@, bits as nat);
+    }
+}
+
+pub proof fn lemma_value_or(c: il::Constant, d: il::Constant, r: Result<il::Constant, Error>)
+    requires
+        c.wf(), d.wf(), c.bits == d.bits,
+        eval_agrees(r, eval_spec(il::Expression::Or(Box::new(il::Expression::Constant(c)), Box::new(il::Expression::Constant(d))), empty_env())),
+    ensures
+        r matches Ok(v) && v.wf() && v.bits == c.bits,
+        c.bits % 8 == 0 ==> or_bytes_ok(c.le_bytes(), d.le_bytes(), r.unwrap().le_bytes()),
+{
+    reveal_with_fuel(eval_spec, 3);
+    let w = c.bits as nat;
+    if w % 8 == 0 {
+        lemma_bytes_or(w, c.value@, d.value@);
+    }
+}
+
 //@ source lib/memory/value.rs
 impl Value for il::Constant {
     open spec fn vwf(&self) -> bool { self.wf() }
@@ -120,6 +208,10 @@ impl Value for il::Constant {
 
     proof fn lemma_debug_law(&self) {}
 
+// (no `ensures` of their own on the methods below: with an extra clause Verus 0.2026.09.13 resolves a
+//  generated self-call `self.shl(bits)` to the INHERENT method il::Constant::shl and rejects the file;
+//  the obligations are the trait's clauses and are reported under `<il::Constant as Value>::<fn>.body`)
+
 //@ fn impl Value for il::Constant :: fn constant nopub
 //@ end
 
@@ -129,14 +221,12 @@ impl Value for il::Constant {
 //@ fn impl Value for il::Constant :: fn shl nopub
 //@ enter
     proof {
-        reveal_with_fuel(eval_spec, 3);
-        reveal_with_fuel(expr_sane, 3);
-        reveal_with_fuel(expr_bits, 3);
-        let w = self.bits as nat;
-        lemma_lt_pow2_(w);
-        if w % 8 == 0 && bits % 8 == 0 && (bits as nat) < w {
-            lemma_small_mod(bits as nat, pow2(w));
-            lemma_bytes_shl(w, self.value@, bits as nat);
+        reveal_with_fuel(expr_sane, 2);
+        assert forall|sc: il::Constant, r: Result<il::Constant, Error>|
+            amount_of(*self, bits, sc) && #[trigger] eval_agrees(r, eval_spec(il::Expression::Shl(Box::new(il::Expression::Constant(*self)), Box::new(il::Expression::Constant(sc))), empty_env()))
+            implies (r matches Ok(v) && v.wf() && v.bits == self.bits)
+                && (self.bits % 8 == 0 && bits % 8 == 0 && bits < self.bits ==> r.unwrap().le_bytes() == shl_bytes(self.le_bytes(), bits as nat / 8)) by {
+            lemma_value_shl(*self, bits, sc, r);
         }
     }
 //@ end
@@ -144,14 +234,12 @@ impl Value for il::Constant {
 //@ fn impl Value for il::Constant :: fn shr nopub
 //@ enter
     proof {
-        reveal_with_fuel(eval_spec, 3);
-        reveal_with_fuel(expr_sane, 3);
-        reveal_with_fuel(expr_bits, 3);
-        let w = self.bits as nat;
-        lemma_lt_pow2_(w);
-        if w % 8 == 0 && bits % 8 == 0 && (bits as nat) < w {
-            lemma_small_mod(bits as nat, pow2(w));
-            lemma_bytes_shr(w, self.value@, bits as nat);
+        reveal_with_fuel(expr_sane, 2);
+        assert forall|sc: il::Constant, r: Result<il::Constant, Error>|
+            amount_of(*self, bits, sc) && #[trigger] eval_agrees(r, eval_spec(il::Expression::Shr(Box::new(il::Expression::Constant(*self)), Box::new(il::Expression::Constant(sc))), empty_env()))
+            implies (r matches Ok(v) && v.wf() && v.bits == self.bits)
+                && (self.bits % 8 == 0 && bits % 8 == 0 && bits < self.bits ==> r.unwrap().le_bytes() == shr_bytes(self.le_bytes(), bits as nat / 8)) by {
+            lemma_value_shr(*self, bits, sc, r);
         }
     }
 //@ end
@@ -159,12 +247,12 @@ impl Value for il::Constant {
 //@ fn impl Value for il::Constant :: fn trun nopub
 //@ enter
     proof {
-        reveal_with_fuel(eval_spec, 3);
-        reveal_with_fuel(expr_sane, 3);
-        reveal_with_fuel(expr_bits, 3);
-        let w = self.bits as nat;
-        if w % 8 == 0 && bits % 8 == 0 && (bits as nat) < w {
-            lemma_bytes_trun(w, self.value@, bits as nat);
+        reveal_with_fuel(expr_sane, 2);
+        assert forall|r: Result<il::Constant, Error>|
+            1 <= bits < self.bits && #[trigger] eval_agrees(r, eval_spec(il::Expression::Trun(bits, Box::new(il::Expression::Constant(*self))), empty_env()))
+            implies (r matches Ok(v) && v.wf() && v.bits == bits)
+                && (self.bits % 8 == 0 && bits % 8 == 0 ==> r.unwrap().le_bytes() == self.le_bytes().take(bits as int / 8)) by {
+            lemma_value_trun(*self, bits, r);
         }
     }
 //@ end
@@ -172,12 +260,12 @@ impl Value for il::Constant {
 //@ fn impl Value for il::Constant :: fn zext nopub
 //@ enter
     proof {
-        reveal_with_fuel(eval_spec, 3);
-        reveal_with_fuel(expr_sane, 3);
-        reveal_with_fuel(expr_bits, 3);
-        let w = self.bits as nat;
-        if w % 8 == 0 && bits % 8 == 0 && (bits as nat) > w {
-            lemma_bytes_zext(w, self.value@, bits as nat);
+        reveal_with_fuel(expr_sane, 2);
+        assert forall|r: Result<il::Constant, Error>|
+            self.bits < bits && #[trigger] eval_agrees(r, eval_spec(il::Expression::Zext(bits, Box::new(il::Expression::Constant(*self))), empty_env()))
+            implies (r matches Ok(v) && v.wf() && v.bits == bits)
+                && (self.bits % 8 == 0 && bits % 8 == 0 ==> r.unwrap().le_bytes() == zext_bytes(self.le_bytes(), bits as nat / 8)) by {
+            lemma_value_zext(*self, bits, r);
         }
     }
 //@ end
@@ -185,12 +273,12 @@ impl Value for il::Constant {
 //@ fn impl Value for il::Constant :: fn or nopub
 //@ enter
     proof {
-        reveal_with_fuel(eval_spec, 3);
-        reveal_with_fuel(expr_sane, 3);
-        reveal_with_fuel(expr_bits, 3);
-        let w = self.bits as nat;
-        if w % 8 == 0 && self.bits == other.bits {
-            lemma_bytes_or(w, self.value@, other.value@);
+        reveal_with_fuel(expr_sane, 2);
+        assert forall|r: Result<il::Constant, Error>|
+            self.bits == other.bits && #[trigger] eval_agrees(r, eval_spec(il::Expression::Or(Box::new(il::Expression::Constant(*self)), Box::new(il::Expression::Constant(*other))), empty_env()))
+            implies (r matches Ok(v) && v.wf() && v.bits == self.bits)
+                && (self.bits % 8 == 0 ==> or_bytes_ok(self.le_bytes(), other.le_bytes(), r.unwrap().le_bytes())) by {
+            lemma_value_or(*self, *other, r);
         }
     }
 //@ end
